@@ -3,9 +3,23 @@
    classes excluded by a guard, and Print Assumptions. *)
 From Coq Require Import ZArith List Bool.
 From Coq.Strings Require Import Byte.
-From Verif Require Import Lib.Bytes Model.Wire Proofs.CompactSize Proofs.ScriptNum Proofs.ScriptCodec.
+From Verif Require Import Lib.Bytes Lib.Py Model.Wire Proofs.CompactSize Proofs.ScriptNum Proofs.ScriptCodec.
+From Verif Require Import Gen.GenFuncs Glue.WireGlue.
 Import ListNotations.
 Open Scope Z_scope.
+
+(* --- tie: the functions regenerated from /repo's source on this run are the model functions --- *)
+Theorem source_is_model :
+  (forall n, gen_int_to_varbyteint n = lib_cs_enc n) /\
+  (forall b, gen_varbyteint_to_int b = Some (fst (lib_cs_dec b), Z.of_nat (snd (lib_cs_dec b)))) /\
+  (forall s, gen_varstr s = lib_varstr s) /\
+  (forall d, gen_data_pack d = lib_data_pack d) /\
+  (forall z, gen_encode_num z = Some (lib_encode_num z)) /\
+  (forall e, gen_decode_num e = Some (lib_decode_num e)).
+Proof.
+  exact (conj gen_int_to_varbyteint_eq (conj gen_varbyteint_to_int_eq (conj gen_varstr_eq
+        (conj gen_data_pack_eq (conj gen_encode_num_eq gen_decode_num_eq))))).
+Qed.
 
 (* --- CompactSize: all integers 0 .. 2^64-1, every boundary --- *)
 Theorem cs_total : forall n, lib_cs_enc n <> None <-> 0 <= n < 2 ^ 64.
@@ -113,6 +127,7 @@ Example whole_script_heuristic_refuted :
   lib_serialize_items [IData s] = Some (x40 :: s).
 Proof. eexists. repeat split; vm_compute; reflexivity. Qed.
 
+Print Assumptions source_is_model.
 Print Assumptions cs_total.
 Print Assumptions cs_roundtrip.
 Print Assumptions cs_canonical.
